@@ -549,7 +549,13 @@ func run(c Case, k *ev.Case) *ev.Failure {
 			got = evs.DownResumed[s.name]
 		}
 		hi := okByID[s.id]
-		lo := hi - ml[s.id]
+		lo := 0 // resumes whose response was out well before the connection died (the others may lose the race against the connection error)
+		for _, inc := range b.Incs() {
+			if _, ok := resumeResponseAt(b, inc.Index, s); ok && resumeSettledOn(b, inc, s) {
+				lo++
+			}
+		}
+		lo -= ml[s.id]
 		if got > hi || got < lo {
 			return ev.Failf("C05.4 resumed-events", "stream %s was resumed successfully %d time(s) (of which %d responses may have been cut off with the link) but its resumed handler ran %d times", s.name, hi, ml[s.id], got).WithHistory(hist())
 		}
@@ -865,7 +871,7 @@ func TestKnownSpuriousReconnect(t *testing.T) {
 	}
 	defer runtime.GOMAXPROCS(runtime.GOMAXPROCS(4))
 	ev.Known(t, "C05-spurious-reconnect", func() *ev.Failure {
-		for attempt := 0; attempt < 400; attempt++ {
+		for attempt := 0; attempt < 500; attempt++ {
 			w := sim.NewWorld()
 			// requests written before the cut wait for their answer on the old connection; they learn about its death only
 			// when the reconnect closes it - and may report that after the (instant) redial has already completed
